@@ -168,6 +168,18 @@ let exec s (race : bool) (op : string list) (obs : string list) : string list =
       let r = get s (int_of_string h2) (cs u) (bool_of_tok is6) (cs ip) in
       settle s; ["ok"; r]
     end
+  | ["hcloseff"; h; cid; len; binding; hasuser; user; bytes] ->
+    let hi = int_of_string h in
+    let c = int_of_string cid in
+    if not (Hashtbl.mem s.handles hi) || not (Hashtbl.mem s.known c) || Hashtbl.mem s.ffdone c then ["skip"] else begin
+      Hashtbl.replace s.ffdone c ();
+      ignore (step s (Model.OHClose (nat_of_int hi)));
+      if race then settle s else settle ~watchers:false s;
+      let m = { Model.fm_len = z_of_string len; fm_binding = bool_of_tok binding;
+                fm_user = (if bool_of_tok hasuser then Some (cs user) else None); fm_bytes = cs bytes } in
+      ignore (step s (Model.OFirst (nat_of_int c, m)));
+      settle s; ["ok"; view s c]
+    end
   | ["expire"; u; is6; ip] ->
     let r = match step s (Model.OExpire (cs u, bool_of_tok is6, cs ip)) with Model.XOk -> "1" | _ -> "0" in
     settle s; [r]
@@ -189,7 +201,7 @@ let exec s (race : bool) (op : string list) (obs : string list) : string list =
   | [] -> ["skip"]
   | _ -> failwith ("unknown op " ^ Stdlib.String.concat " " op)
 
-let is_racy = function ("rmget" | "hcloseget" | "expireget") :: _ -> true | _ -> false
+let is_racy = function ("rmget" | "hcloseget" | "expireget" | "hcloseff") :: _ -> true | _ -> false
 
 let simulate cfgseg (ops : string list list) (obs : string list list) (races : bool list) : string list list =
   let ft, wbuf, laddr = match cfgseg with
@@ -287,6 +299,15 @@ let monitor cfgseg ops osegs =
       | [], [fin] ->
         [ (Model.VCleanup, none2 (if List.mem (List.hd (Stdlib.String.split_on_char ',' (Stdlib.String.concat "" fin))) ["clean"]
                                     && fin = ["clean"] then Model.XOk else Model.XErr)) ]
+      | ("hcloseff" :: h :: fftoks) :: r, o :: ro ->
+        (* to the monitor: the handle is closed, then the first frame arrives (the outcome must not depend on
+           whether the closed conn's cleanup has run) *)
+        (match o with
+         | ["skip"] -> go r ro
+         | [_; v] ->
+           let x1 = (Model.VHClose (nat h), none2 Model.XOk) in
+           (match vop_of ("ff" :: fftoks) [v] with Some x2 -> x1 :: x2 :: go r ro | None -> x1 :: go r ro)
+         | _ -> raise Exit)
       | op :: r, o :: ro -> (match vop_of op o with Some x -> x :: go r ro | None -> go r ro)
       | _ -> raise Exit in
     let tr = go ops osegs in
